@@ -2,11 +2,23 @@
 
 use crate::rng::Rng;
 
+pub mod client;
+pub mod decode;
+pub mod msggen;
 pub mod name;
+pub mod text;
 
 pub fn gen(stream: &str, r: &mut Rng, index: u64) -> String {
     match stream {
         "name" => name::gen(r, index),
+        "rdata" => decode::gen_rdata(r, index),
+        "reader" => decode::gen_reader(r, index),
+        "readerx" => decode::gen_readerx(r, index),
+        "iter" => decode::gen_iter(r, index),
+        "rrset" => decode::gen_rrset(r, index),
+        "nameeq" => decode::gen_nameeq(r, index),
+        "text" | "cmp" | "query" => text::gen(stream, r, index),
+        "c11" | "c12" | "c13" | "c14" | "c15" | "c16" => client::gen(stream, r, index),
         _ => panic!("unknown stream {}", stream),
     }
 }
@@ -15,6 +27,14 @@ pub fn eval(line: &str) -> String {
     let toks: Vec<&str> = line.split(' ').collect();
     match toks.first().copied() {
         Some("name") => name::eval(&toks),
+        Some("client") => client::eval(&toks),
+        Some("rdata") => decode::eval_rdata(&toks),
+        Some("reader") => decode::eval_reader(&toks),
+        Some("iter") => decode::eval_iter(&toks),
+        Some("rrset") => decode::eval_rrset(&toks),
+        Some("nameeq") => decode::eval_nameeq(&toks),
+        Some("check") | Some("checklabel") | Some("parse") | Some("wname") | Some("cmp") | Some("eqstr")
+        | Some("query") => text::eval(&toks),
         _ => "bad-request".to_string(),
     }
 }
